@@ -38,6 +38,12 @@ def generate(rng, n, tier):
         zs = [float(rng.randint(0, 30)) for _ in range(k)]   # heights must not matter (planimetric)
         ts = sorted(rng.choice(range(100, 100 + 2 * k)) for _ in range(k))   # repeated timestamps allowed
         ms = [rng.choice([0, 0, 500]) for _ in range(k)]
+        if rng.random() < 0.08:
+            # a benchmark re-surveyed every year (or every other year): neighbouring fixes in the same month, and often on the same day, of different years
+            ts = [100]
+            for _ in range(k - 1):
+                ts.append(ts[-1] + rng.choice([365 * 86400, 366 * 86400, 730 * 86400, 365 * 86400 + 5, 364 * 86400, 0]))
+            ms = [0] * k
         r2 = rng.random()
         if k >= 3 and r2 < 0.3:
             # boundary class: the two neighbours of an interior fix coincide (out-and-back) and / or share one instant
